@@ -73,6 +73,13 @@ def run(ck, tier, seed):
         for d in range(8):
             for ppm in (0, 12):
                 srcs.append({"font": pf, "text": t, "dir": d, "ppm": ppm})
+    # after all the fonts with at most one justification level: one with two levels that both carry weight
+    tl = corpus.twolevel_font(tmp)
+    if tl:
+        for t in ("abab ab", "ab ba", "a b a b a", "bab aba"):
+            for d in (0, 1, 3):
+                for ppm in (0, 12):
+                    srcs.append({"font": tl, "text": t, "dir": d, "ppm": ppm})
     sf = os.path.join(tmp, "sources.ndjson")
     open(sf, "w").write("\n".join(json.dumps(s) for s in srcs) + "\n")
     trace = os.path.join(tmp, "trace.ndjson")
